@@ -43,7 +43,9 @@ Fixpoint c05_walk (lower : str -> str) (c : cfg) (u : upolicy) (outage : option 
             (negb gs || (outage_ans && (now <? g + c_G c) && (now <=? s_lifetime_dl s + 1))) &&
             (* an existing session keeps working during the grace period of the current outage
                (in particular a later outage, after a success, gets a fresh period) *)
-            (negb (is_due && negb confirmed && outage_ans && otherwise_ok && (now <? g + c_G c - 1)) || o_served o) in
+            (negb (is_due && negb confirmed && outage_ans && otherwise_ok && (now <? g + c_G c - 1)) || o_served o) &&
+            (* a session that is refused (grace over, rejected, expired, ...) has its cookie cleared by that response *)
+            (o_served o || match o_cookie o with CCleared => true | _ => false end) in
           let outage' := if gs then Some g else if fs then None else outage in
           step_ok && c05_walk lower c u outage' rest
       end
